@@ -43,5 +43,6 @@ def ob(rule, shape, placement, o, cn, ok, detail, prop):
     rid = rule.split(" ")[0]
     codes = sorted(set(re.findall(r"\[([a-z][a-z0-9-]+)\]", detail)))
     what = "+".join(codes) if codes else gen(re.sub(r"^T(\.\w+)*\.", "", detail))
-    key = "%s | %s | %s" % (rid, shape.key[0], what if not ok else "")
+    # a coded finding names the construct itself; otherwise the instruction family narrows the key
+    key = ("%s | %s" % (rid, what)) if (codes and not ok) else "%s | %s | %s" % (rid, shape.key[0], what if not ok else "")
     return (rule, inst, ok, detail, key)
